@@ -43,20 +43,26 @@ for d in sorted(glob.glob(os.path.join(V, "seeded", "C*-[A-Z]"))):
     title = notes.strip().split("\n", 1)[0].lstrip("# ").strip()
     confirm = json.load(open(os.path.join(d, "confirm.json"))) if os.path.exists(os.path.join(d, "confirm.json")) else None
     files = sorted(set(re.findall(r"^\+\+\+ b/(\S+)", open(os.path.join(d, "patch.diff")).read(), re.M)))
-    verdicts = {}
+    old = {}
+    if os.path.exists(os.path.join(d, "meta.json")):
+        try:
+            old = json.load(open(os.path.join(d, "meta.json")))
+        except Exception:
+            old = {}
+    verdicts = dict(old.get("verdicts", {}))  # verdicts of checks not re-run this time are kept
     for (n, p), r in matrix.items():
         if n == name:
             verdicts[p] = {"caught": r["exit"] == 1, "exit": r["exit"], "findings": r["findings"][:2]}
     meta = {
         "id": name,
-        "round": {"A": 1, "B": 1, "C": 2, "D": 2}.get(name[-1], 4 if prop in ("C07", "C08", "C09", "C13", "C17", "C20") else 3),
+        "round": old.get("round") or (5 if (prop in ("C03", "C12") or name in ("C14-G", "C14-H", "C13-F", "C13-G")) else {"A": 1, "B": 1, "C": 2, "D": 2}.get(name[-1], 4 if prop in ("C07", "C08", "C09", "C13", "C17", "C20") else 3)),
         "breaks_property": prop,
         "title": title,
         "files_changed": files,
         "what_was_changed": section(notes, [r"change"]) or title,
         "clause_broken": section(notes, [r"clause", r"breaks", r"property"]),
         "needs_to_manifest": section(notes, [r"needed", r"manifest", r"trigger"]),
-        "origin": "fresh sub-agent given only the property text (/tmp/props/%s.json) and its own scratch clone of /repo; nothing from /verif" % prop,
+        "origin": old.get("origin") or "fresh sub-agent given only the property text (/tmp/seed5/props/%s.json) and its own scratch git worktree of /repo; nothing from /verif" % prop,
         "confirmed_by_me": confirm,
         "how_checks_were_run": "tools/matrix.sh seeded: scratch clone of /repo + git apply patch.diff, TZVERIF_REPO=<clone> python3 check.py <prop> --tier quick (own property and C07); equivalently tools/try_mutant.sh <dir> <prop>: git -C /repo apply, check, git -C /repo checkout -- .",
         "verdicts": verdicts,
